@@ -158,6 +158,7 @@ var specificCtx = map[string]bool{
 	"dotimes-result": true, "macrolet-tmpl": true, "tmpl": true, "export-form": true,
 	"quoted-designator": true, "unquote": true, "function-form": true, "tmpl-qualified": true,
 	"macrolet-tmpl-qualified": true, "qualified": true, "set!-target": true, "imported": true, "imported-other-file": true,
+	"ref-to-nested-def": true, "call-of-head-special-cased": true,
 }
 
 func refKey(kind string, o Occ) string {
@@ -306,8 +307,14 @@ func diagnose(c Case, minLeaves [][]leaf, generated map[string]string) []anomaly
 					// the one known way to get here: the file that exports the
 					// name also use-packages the exporting package further down
 					k := "stale-ref/export-form"
+					if nn != on {
+						// rewritten, but to the name of something else
+						k = "misbound-ref/export-form"
+					}
 					if usesPkg[fi][binderPkg[o.B]] {
 						k += ":same-file-use-package"
+					} else if ns[len(ns)-1].file != fi {
+						k += ":definition-in-other-file"
 					}
 					add(k, "export form names %q (now %q) in %s but the definition was renamed to %q", o.N, nw, f.Path, want)
 					continue
@@ -642,7 +649,7 @@ func determinismCause(c Case) string {
 	pkgsOf := map[string]map[string]bool{}
 	for fi, f := range c.Files {
 		for _, o := range f.Occ {
-			if o.R == "bind" && (o.K == "defun" || o.K == "gset" || o.K == "macro") {
+			if o.R == "bind" && (o.K == "defun" || o.K == "gset" || o.K == "macro" || o.K == "deftype") {
 				if pkgsOf[o.N] == nil {
 					pkgsOf[o.N] = map[string]bool{}
 				}
